@@ -102,6 +102,9 @@ func (c *zzLifeCtx) InspectServerBlocks(f string, b []casketfile.ServerBlock) ([
 	return b, nil
 }
 func (c *zzLifeCtx) MakeServers() ([]Server, error) {
+	if c.fault == "noservers" {
+		return nil, nil // an instance without servers (callbacks only)
+	}
 	s1 := &zzLifeServer{tag: c.tag + "1", stop: make(chan struct{})}
 	s2 := &zzLifeServer{tag: c.tag + "2", stop: make(chan struct{}), failListen: c.fault == "listen", failPacket: c.fault == "listenpacket"}
 	return []Server{s1, s2}, nil
@@ -314,4 +317,60 @@ func VerifH16Lifecycle() {
 	verifrt.Assert(zzHas("served@"+curTag+"1") && zzHas("served@A1"), "wait-covers-all-servers-of-the-lineage")
 	verifrt.Assert(len(zzOpenLn) == 0, "no-listener-left-open")
 	verifrt.Observe("life", strings.Join(got, ","))
+}
+
+// VerifH16bShutdownPassWithStop: three live instances; while process shutdown runs the shutdown
+// callbacks, the first instance's callback has its own instance stopped from another goroutine (the
+// tail of a reload, or an embedding program). Every live instance's shutdown and final-shutdown
+// callbacks still run exactly once, under every interleaving within the preemption bound.
+func VerifH16bShutdownPassWithStop() {
+	verifrt.Terminates()
+	verifrt.Concurrent(-1) // the three starts run deterministically ...
+	zzLifeRegister()
+	zzLifeMu.Lock()
+	zzLifeLog = nil
+	zzOpenLn = map[*zzLifeLn]bool{}
+	zzLifeMu.Unlock()
+	instances = nil
+	shutdownCallbacksOnce = sync.Once{}
+	Quiet = true
+	tags := []string{"A", "B", "C"}
+	var insts []*Instance
+	for _, t := range tags {
+		inst, err := Start(zzInput(t, "noservers"))
+		if err != nil {
+			verifrt.Fail("start")
+			return
+		}
+		insts = append(insts, inst)
+	}
+	which := verifrt.Choose("stopped-instance", 2) // the first or the second of the three
+	stopped := make(chan struct{})
+	insts[which].OnShutdown = append(insts[which].OnShutdown, func() error {
+		go func() {
+			insts[which].Stop()
+			close(stopped)
+		}()
+		verifrt.Yield()
+		return nil
+	})
+	verifrt.Concurrent(1 + verifrt.Tier()) // ... the shutdown pass and the concurrent Stop interleave
+	executeShutdownCallbacks("SIGTERM")
+	<-stopped
+	verifrt.Concurrent(-1)
+	for _, t := range tags {
+		n, f := 0, 0
+		zzLifeMu.Lock()
+		for _, e := range zzLifeLog {
+			if e == "shutdown@"+t {
+				n++
+			}
+			if e == "finalshutdown@"+t {
+				f++
+			}
+		}
+		zzLifeMu.Unlock()
+		verifrt.Assert(n == 1 && f == 1, "every-live-instance-shut-down-exactly-once")
+	}
+	Stop()
 }
